@@ -556,8 +556,11 @@ func resolveDisableMap(r Exp, v map[string]Exp, disable []Exp) ([]Exp, error) {
 	}
 	allFalse := true
 	allTrue := true
-	for _, e := range v {
-		switch e := e.(type) {
+	// Iterate in key order so that the element which is reported
+	// (or returned) does not depend on map iteration order.
+	keys := sortedKeys(v)
+	for _, k := range keys {
+		switch e := v[k].(type) {
 		case *RefExp, *NullExp:
 			allTrue = false
 			allFalse = false
@@ -580,9 +583,7 @@ func resolveDisableMap(r Exp, v map[string]Exp, disable []Exp) ([]Exp, error) {
 		return disable, nil
 	}
 	if allTrue {
-		for _, e := range v {
-			return []Exp{e}, nil
-		}
+		return []Exp{v[keys[0]]}, nil
 	}
 	result := make([]Exp, len(disable), len(disable)+1)
 	copy(result, disable)
